@@ -101,6 +101,18 @@ def zinput(prompt: str) -> str:
     return input()
 
 
+def write_text_atomically(path: Path, text: str) -> None:
+    """Replace the contents of {path} with {text} in one step.
+
+    The text is written to a temporary file next to {path}, which then takes
+    the place of {path}. A process that dies half way leaves the old contents
+    (and possibly the temporary file) behind, never a truncated {path}.
+    """
+    tmp_path = path.with_name(f".{path.name}.tmp")
+    tmp_path.write_text(text)
+    tmp_path.replace(path)
+
+
 def get_all_zfiles(zdir: PathLike) -> Iterator[Path]:
     """Returns all *.zo, *.zot, and *.zoq files."""
     zdir = Path(zdir)
